@@ -8,7 +8,7 @@ from . import common, place, xt
 from .xt import veq
 
 VMODES = ["ramp", "extreme", "minimal", "long", "emptyref"]  # emptyref: references bound to arrays without items (types with such references only)
-PY_FORMS = ["py", "py-args"]  # py-args: the value of every struct-typed FIELD is a 1-tuple of constructor arguments (documented tuple dispatch)
+PY_FORMS = ["py", "py-args", "py-rows-view"]  # py-args: the value of every struct-typed FIELD is a 1-tuple of constructor arguments (documented tuple dispatch)
 ND = ["nd", "ndF", "ndS", "ndD", "ndR", "ndFD", "ndTD", "ndB"]
 XOBJ = ["xobj-same", "xobj-other", "xobj-ctx", "xobj-kind", "xobj-nested", "xobj-slack", "ref-same", "ref-foreign", "xobj-view", "xobj-nested-view", "xobj-twin", "xobj-capslack",
         "xobj-dyn", "xobj-dyn-view", "xobj-dyn-len"]  # xobj-dyn*: a static-shape array built from an object of the all-dynamic class of the same shape
@@ -74,6 +74,9 @@ def forms_for(t, v, want):
                 out.append(f)
         elif f == "py-args":
             if xt.py_expressible(t, v) and any(s_[0] == "St" and any(ft[0] == "St" for _, ft in s_[1]) for s_ in xt.subtypes(t)):
+                out.append(f)
+        elif f == "py-rows-view":
+            if xt.py_expressible(t, v) and any(s_[0] == "A" and s_[1][0] == "S" and len(s_[2]) >= 2 for s_ in xt.subtypes(t)):
                 out.append(f)
         elif f in ND:
             if has_sa and xt.nd_ok(t, v, f) or (f == "nd" and not xt.py_expressible(t, v)):
@@ -182,6 +185,33 @@ def nested_view_arg(t, v):
     def rec(prefix, d):
         if d == len(shape):
             return whole[prefix if len(prefix) > 1 else prefix[0]] if t[1][0] in ("St", "A") else xt.to_py(t[1], v["items"][prefix])
+        return [rec(prefix + (i,), d + 1) for i in range(shape[d])]
+
+    return rec((), 0)
+
+
+def rows_view_arg(t, v):
+    """plain data in which the ROWS (last axis) of every array of numbers with two or more dimensions are 1-D xobject
+    arrays, given as views rebuilt from (buffer, offset)"""
+    k = t[0]
+    if k in ("S", "Str"):
+        return v
+    if k == "St":
+        return {n: rows_view_arg(ft, v[n]) for n, ft in t[1]}
+    if k == "R":
+        return None if v is None else rows_view_arg(t[1], v)
+    if k == "U":
+        return None if v is None else (xt.build(t[1][v[0]]).__name__, rows_view_arg(t[1][v[0]], v[1]))
+    shape = v["shape"]
+    rowcls = xt.build(("A", t[1], (None,), (0,))) if (t[1][0] == "S" and len(shape) >= 2) else None
+    other = place.traced("np", 0)
+
+    def rec(prefix, d):
+        if rowcls is not None and d == len(shape) - 1:
+            r = rowcls([v["items"][prefix + (i,)] for i in range(shape[d])], _buffer=other)
+            return rowcls._from_buffer(r._buffer, r._offset)
+        if d == len(shape):
+            return rows_view_arg(t[1], v["items"][prefix])
         return [rec(prefix + (i,), d + 1) for i in range(shape[d])]
 
     return rec((), 0)
@@ -335,6 +365,8 @@ def execute(t, v, form, pname, salt=0):
         arg = xt.to_py(t, v)
     elif form == "py-args":
         arg = to_py_args(t, v)
+    elif form == "py-rows-view":
+        arg = rows_view_arg(t, v)
     elif form in ND:
         arg = xt.to_nd(t, v, form)
     elif form in ("cap", "cap-np"):
